@@ -304,6 +304,8 @@ type evaluator struct {
 	// expandPhi: render loop-free phis structurally (for sibling comparison)
 	expandPhi bool
 	phiBusy   map[*ssa.Phi]bool
+	// recFields: field values of value records returned by expanded helpers (E11): "rec:new#1.found" -> term
+	recFields map[string]*term
 }
 
 func newEval(p *Program) *evaluator {
@@ -492,6 +494,28 @@ func (e *evaluator) eval1(v ssa.Value) *term {
 		case token.AND:
 			return O("and", a, b)
 		case token.OR:
+			// the bits of the operands cannot overlap (x<<k | y with y narrower than k bits): or is add
+			lowZeros := func(v ssa.Value) int {
+				for {
+					if cv, ok := v.(*ssa.Convert); ok {
+						v = cv.X
+						continue
+					}
+					break
+				}
+				if sh, ok := v.(*ssa.BinOp); ok && sh.Op == token.SHL {
+					if k, ok := constInt(sh.Y); ok && k > 0 {
+						return int(k)
+					}
+				}
+				return 0
+			}
+			if z := lowZeros(x.X); z > 0 && e.bits(x.Y) <= z && !strings.Contains(a.String(), "shlw") {
+				return O("add", a, b)
+			}
+			if z := lowZeros(x.Y); z > 0 && e.bits(x.X) <= z && !strings.Contains(b.String(), "shlw") {
+				return O("add", a, b)
+			}
 			return O("or", a, b)
 		case token.XOR:
 			return O("xor", a, b)
@@ -561,6 +585,13 @@ func (e *evaluator) eval1(v ssa.Value) *term {
 		}
 		return S("phi:" + x.Comment + "@" + x.Parent().Name() + "." + fmt.Sprint(x.Block().Index))
 	case *ssa.Field:
+		if bt := e.eval(x.X); bt.op == "sym" && strings.HasPrefix(bt.name, "rec:") {
+			if st, ok := x.X.Type().Underlying().(*types.Struct); ok && x.Field < st.NumFields() {
+				if v, ok := e.recFields[bt.name+"."+st.Field(x.Field).Name()]; ok {
+					return v
+				}
+			}
+		}
 		return ON("field", fmt.Sprint(x.Field), e.eval(x.X))
 	case *ssa.UnOp:
 		switch x.Op {
@@ -589,7 +620,11 @@ func (e *evaluator) eval1(v ssa.Value) *term {
 				}
 				return ON("idx", "", S(e.path(ia.X)), e.eval(ia.Index))
 			}
-			return S(e.path(x.X))
+			pth := e.path(x.X)
+			if v, ok := e.recFields[pth]; ok {
+				return v
+			}
+			return S(pth)
 		case token.SUB:
 			return mulTerms(K(-1), e.eval(x.X))
 		case token.XOR:
@@ -1033,6 +1068,11 @@ func soleCopySource(al *ssa.Alloc) ssa.Value {
 				return nil // the address itself is stored somewhere
 			}
 			n++
+			// a by-value record parameter spilled to the stack (func (l located) m() { ... l.found ... })
+			if prm, isPrm := x.Val.(*ssa.Parameter); isPrm {
+				src = prm
+				continue
+			}
 			ld, ok := x.Val.(*ssa.UnOp)
 			if !ok || ld.Op != token.MUL {
 				return nil
